@@ -33,7 +33,8 @@ Inductive ekind :=
   | ER (x : tid) (dn cn : bool) (res : N)       (* the blocking service.call that started x returned; same data *)
   | ECb (j : cbid) (a : N)                      (* done-callback j called with argument a *)
   | ECe (j : cbid)                              (* a suspending callback resumed *)
-  | EF (i : tid) (ok : bool).                   (* fault: the real user_task_cancel(task i) was called; ok = no TypeError *)
+  | EF (i : tid) (ok : bool)                    (* fault: the real user_task_cancel(task i) was called; ok = no TypeError *)
+  | EL (me : N).                                (* an event of this run carried the value [me] of its local variable `me`, which is not the run's own number *)
 Record event := mkE { e_time : N; e_who : N; e_kind : ekind; e_snap : N }.
 Definition DRIVER : N := 99.
 (* result code: 0 = None, v+1 = integer v, 999 = an exception object *)
@@ -116,7 +117,7 @@ Definition bits_of (s : state) (t : tid) : N :=
 
 Definition res_code (r : trec) : N :=
   match tr_final r with
-  | Some (ORet (Some v)) => match tr_kind r with KTrig => 0 | _ => v + 1 end
+  | Some (ORet (Some v)) => match tr_kind r with KTrig | KShutL => 0 | _ => v + 1 end
   | Some OEscape => 999
   | _ => 0
   end.
@@ -422,6 +423,7 @@ Definition ekind_eqb (a b : ekind) : bool :=
   | ECb j a, ECb j' a' => N.eqb j j' && N.eqb a a'
   | ECe j, ECe j' => N.eqb j j'
   | EF i ok, EF i' ok' => N.eqb i i' && Bool.eqb ok ok'
+  | EL m, EL m' => N.eqb m m'
   | _, _ => false
   end.
 Definition event_eqb (a b : event) : bool :=
@@ -584,7 +586,7 @@ Section Spec.
                  match e_kind e with
                  | EM k => if N.eqb k n then Some 0
                            else match nth_error (sp_steps t) (N.to_nat k) with
-                                | Some (SRet v) => Some (match sp_kind t with KTrig => 0 | _ => v + 1 end)
+                                | Some (SRet v) => Some (match sp_kind t with KTrig | KShutL => 0 | _ => v + 1 end)
                                 | _ => acc
                                 end
                  | _ => acc
@@ -707,13 +709,17 @@ Section Spec.
         | _, _ => true
         end) ops.
 
+  (* S7: a run keeps its own arguments and locals, and dies only of exceptions its own program can raise *)
+  Definition spec_own_frame : bool :=
+    forallb (fun e => match e_kind e with EL _ => false | EX 0 => false | _ => true end) (lc_events c).
+
   Definition spec_task (t : tid) : bool :=
     let f := sp_fin t in
     (if ft_done f then spec_cleanup t && spec_callbacks t else true)
     && spec_outcome t && spec_timing t && spec_not_killed t.
 
   Definition spec_all : bool :=
-    forallb spec_task (upto (length (lc_tasks c))) && spec_wait_reports && spec_ops_succeed (lc_events c) 0 && spec_cancel_ends && N.eqb (lc_stray c) 0.
+    forallb spec_task (upto (length (lc_tasks c))) && spec_wait_reports && spec_ops_succeed (lc_events c) 0 && spec_cancel_ends && spec_own_frame && N.eqb (lc_stray c) 0.
 End Spec.
 
 Definition lcase_spec_ok (c : lcase) : bool := negb (lc_clean c) || spec_all c.
@@ -722,10 +728,10 @@ Definition lcase_spec_ok (c : lcase) : bool := negb (lc_clean c) || spec_all c.
 Definition with_off (k : nat) (dv : deviations) : deviations :=
   mkDev (if Nat.eqb k 22 then false else d_cb_raise_breaks dv) (if Nat.eqb k 20 then false else d_service_no_cbrec dv)
         (if Nat.eqb k 140 then false else d_fin_cancel_escapes dv) (if Nat.eqb k 141 then false else d_live_iter dv)
-        (if Nat.eqb k 142 then false else d_call_cancel_kills dv).
+        (if Nat.eqb k 142 then false else d_call_cancel_kills dv) (if Nat.eqb k 143 then false else d_shutdown_no_cbrec dv).
 Definition switches (dv : deviations) : list (nat * bool) :=
   [(22%nat, d_cb_raise_breaks dv); (20%nat, d_service_no_cbrec dv); (140%nat, d_fin_cancel_escapes dv); (141%nat, d_live_iter dv);
-   (142%nat, d_call_cancel_kills dv)].
+   (142%nat, d_call_cancel_kills dv); (143%nat, d_shutdown_no_cbrec dv)].
 
 (* Dk is blamed iff the Model under the measured switches reproduces the observation, the Model with every switch off
    satisfies the Spec on this case, and switch k is on and changes the prediction for this case (if no single switch
@@ -746,11 +752,11 @@ Definition show_event (e : event) : N * N * (N * N * N) * N :=
    match e_kind e with
    | EM k => (0, k, 0) | EX x => (1, x, 0) | EW x d cn r => (2, x, (if d then 1 else 0) + (if cn then 2 else 0) + 4 * r)
    | ER x d cn r => (6, x, (if d then 1 else 0) + (if cn then 2 else 0) + 4 * r)
-   | ECb j a => (3, j, a) | ECe j => (4, j, 0) | EF i ok => (5, i, if ok then 1 else 0)
+   | ECb j a => (3, j, a) | ECe j => (4, j, 0) | EF i ok => (5, i, if ok then 1 else 0) | EL m => (7, m, 0)
    end, e_snap e).
 Definition show_fin (f : fin_task) := (ft_known f, ft_done f, ft_cancelled f, ft_res f, ft_bits f).
 Definition lcase_explain (dv : deviations) (c : lcase) :=
   let p := predict dv c in
   (lc_clean p, map show_event (lc_events p), map show_fin (lc_fin p), lc_fin_names p, lc_fin_rq p,
    (lcase_spec_ok c, map (fun t => (spec_cleanup c t, spec_callbacks c t, spec_outcome c t, spec_timing c t, spec_not_killed c t))
-                         (upto (length (lc_tasks c))), spec_wait_reports c, spec_ops_succeed c (lc_events c) 0, spec_cancel_ends c)).
+                         (upto (length (lc_tasks c))), spec_wait_reports c, spec_ops_succeed c (lc_events c) 0, spec_cancel_ends c, spec_own_frame c)).
